@@ -160,3 +160,19 @@ def run(chk):
         chk.nontriv((r.id, 'big'))
         chk.extra_cov['largest_face_count_of_a_cell'] = max(chk.extra_cov.get('largest_face_count_of_a_cell', 0), max(c.cnt for c in impl['cells']))
     chk.extra_cov['bigtess_records'] = nbig
+
+    # ---- faces already stored in caller-kept buffers must survive a second `build_voronoi_cells` unchanged (op routes, BVC)
+    from props.c12 import parse_routes_impl
+    got = run_cells_op(chk, op='routes')
+    if got is None:
+        return
+    for r in got[0]:
+        impl = parse_routes_impl(r.res)
+        if 'bvc' not in impl:
+            continue
+        chk.count()
+        if impl['bvc'] != '-':
+            chk.violation('impl-vs-impl', 'a second VoronoiIntegrator::build_voronoi_cells into the same buffers changed stored faces / returned other cells: %s (record %d, %s)'
+                          % (impl['bvc'][:300], r.id, r.family), {'op': 'routes', 'ids': [r.id], 'family': r.family, 'record': r.line[:3000]}, key='bvc')
+        else:
+            chk.traces += 1
